@@ -1,3 +1,144 @@
-import Model.Basic
+/-
+  Model/Persist.lean — constructors (with their validation), `save`, the class loaders and the
+  module-level `load()` dispatch, for all five sketch classes.  Tables are opaque payloads
+  (`List Nat`, row-major) — NumPy's container I/O is modelled as storing and returning them
+  unchanged (C20 is about what happens when the container is damaged).
+-/
 namespace Sketchnu
+
+inductive Cls where
+  | linear | log16 | log8 | hll | hh
+  deriving Repr, DecidableEq
+
+/-- dtype of the `dtype` member written by the count-min `save()` (`self.cms[0, 0]`) -/
+inductive DType where
+  | u32 | u16 | u8
+  deriving Repr, DecidableEq
+
+/-- constructor arguments as the classes take them; `phi` is a rational `num/den` or `none`
+    (default `1/width`) -/
+structure Args where
+  cls : Cls
+  width : Nat := 0
+  depth : Nat := 0
+  maxCount : Nat := 0
+  numReserved : Nat := 0
+  p : Nat := 0
+  seed : Nat := 0
+  maxKeyLen : Nat := 0
+  phi : Option (Nat × Nat) := none
+  deriving Repr, DecidableEq
+
+/-- a sketch object: public parameters (as attributes), tables, bookkeeping.
+    Not part of the saved state: the random-number state of log sketches and the heavy-hitter
+    candidate cache (rebuilt by `load`). -/
+structure Obj where
+  cls : Cls
+  width : Nat
+  depth : Nat
+  maxCount : Nat
+  numReserved : Nat
+  p : Nat
+  seed : Nat
+  maxKeyLen : Nat
+  phi : Nat × Nat            -- attribute `phi` (always a number once constructed)
+  tables : List (List Nat)   -- cms | registers | lhh, lhh_count, key_lens
+  nAdded : Nat
+  nRecords : Nat
+  deriving Repr, DecidableEq
+
+inductive LoadErr where
+  | valueError | typeError | keyError
+  deriving Repr, DecidableEq
+
+/-- `baseOK maxc mc nr`: `_find_base` accepts the configuration (a deterministic function of its
+    arguments; its numerics are outside the model) -/
+abbrev BaseOK := Nat → Nat → Nat → Bool
+
+def phiValid (phi : Nat × Nat) : Bool := decide (0 < phi.1) && decide (0 < phi.2) && decide (phi.1 ≤ phi.2)
+
+/-- the constructors' own acceptance tests -/
+def ctorValid (ok : BaseOK) (a : Args) : Bool :=
+  match a.cls with
+  | .linear => decide (0 < a.width) && decide (0 < a.depth)
+  | .log16 => decide (0 < a.width) && decide (0 < a.depth) && decide (a.numReserved < 65535) && ok 65535 a.maxCount a.numReserved
+  | .log8 => decide (0 < a.width) && decide (0 < a.depth) && decide (a.numReserved < 255) && ok 255 a.maxCount a.numReserved
+  | .hll => decide (7 ≤ a.p) && decide (a.p ≤ 16)
+  | .hh => decide (0 < a.width) && decide (0 < a.depth) && decide (0 < a.maxKeyLen) && decide (a.maxKeyLen ≤ 255) &&
+      (match a.phi with | none => true | some ph => phiValid ph)
+
+def cellsOf (a : Args) : List Nat :=
+  match a.cls with
+  | .linear | .log16 | .log8 => [a.width * a.depth]
+  | .hll => [2 ^ a.p]
+  | .hh => [a.maxKeyLen * a.width * a.depth, a.width * a.depth, a.width * a.depth]
+
+/-- `__init__`: validate, set attributes, zero tables -/
+def ctor (ok : BaseOK) (a : Args) : Except LoadErr Obj :=
+  if ctorValid ok a then
+    .ok { cls := a.cls, width := a.width, depth := a.depth, maxCount := a.maxCount, numReserved := a.numReserved,
+          p := a.p, seed := a.seed, maxKeyLen := a.maxKeyLen,
+          phi := (match a.phi with | some ph => ph | none => (1, a.width)),
+          tables := (cellsOf a).map fun n => List.replicate n 0, nAdded := 0, nRecords := 0 }
+  else .error .valueError
+
+/-- the `.npz` members -/
+structure File where
+  args : Args                -- the `args` array as the loader will pass it to the constructor
+  dtype : Option DType       -- `dtype` member (count-min only)
+  tables : List (List Nat)
+  books : Option (Nat × Nat) -- `n_added_records` (absent for HyperLogLog)
+  deriving Repr, DecidableEq
+
+def dtypeOf : Cls → Option DType
+  | .linear => some .u32
+  | .log16 => some .u16
+  | .log8 => some .u8
+  | _ => none
+
+/-- `save()`: the args array holds the ATTRIBUTES (so `phi` is always a number in the file) -/
+def save (o : Obj) : File :=
+  { args := { cls := o.cls, width := o.width, depth := o.depth, maxCount := o.maxCount, numReserved := o.numReserved,
+              p := o.p, seed := o.seed, maxKeyLen := o.maxKeyLen,
+              phi := (match o.cls with | .hh => some o.phi | _ => none) },
+    dtype := dtypeOf o.cls, tables := o.tables,
+    books := (match o.cls with | .hll => none | _ => some (o.nAdded, o.nRecords)) }
+
+/-- a class loader: (count-min) check the dtype tag, rebuild from args, copy tables and bookkeeping -/
+def loadAs (ok : BaseOK) (c : Cls) (f : File) : Except LoadErr Obj :=
+  match dtypeOf c with
+  | some want =>
+    match f.dtype with
+    | none => .error .keyError
+    | some got =>
+      if got ≠ want then .error .typeError
+      else match ctor ok { f.args with cls := c } with
+        | .error e => .error e
+        | .ok o => match f.books with
+          | some (na, nr) => .ok { o with tables := f.tables, nAdded := na, nRecords := nr }
+          | none => .error .keyError
+  | none =>
+    match ctor ok { f.args with cls := c } with
+    | .error e => .error e
+    | .ok o =>
+      if c = .hll then .ok { o with tables := f.tables }
+      else match f.books with
+        | some (na, nr) => .ok { o with tables := f.tables, nAdded := na, nRecords := nr }
+        | none => .error .keyError
+
+/-- module-level `countmin.load()`: dispatch on the dtype member -/
+def loadAny (ok : BaseOK) (f : File) : Except LoadErr Obj :=
+  match f.dtype with
+  | some .u32 => loadAs ok .linear f
+  | some .u16 => loadAs ok .log16 f
+  | some .u8 => loadAs ok .log8 f
+  | none => .error .keyError
+
+/-- an object as a constructor followed by any history leaves it: parameters as constructed,
+    tables of the constructed shapes -/
+def Obj.wf (ok : BaseOK) (o : Obj) : Prop :=
+  ∃ a : Args, ctorValid ok a = true ∧ a.cls = o.cls ∧
+    (ctor ok a).toOption.map (fun c => (c.width, c.depth, c.maxCount, c.numReserved, c.p, c.seed, c.maxKeyLen, c.phi))
+      = some (o.width, o.depth, o.maxCount, o.numReserved, o.p, o.seed, o.maxKeyLen, o.phi)
+
 end Sketchnu
